@@ -1552,3 +1552,142 @@ def timeout_before_close_family(report, prop="C18", label="timeout-elapsed-befor
     report.obligation("corr:" + label, "correspondence", ok, f"{len(scripts)} scripted histories, every response compared")
     report.obligation("mon:" + label, "monitor", mon, "a timeout that has elapsed when the connection ends is applied, not forgotten")
     return ok and mon
+
+
+def alias_with_connack_family(report, prop="C17", label="alias-in-the-read-of-the-connack"):
+    """inbound topic aliases when the CONNACK and aliased PUBLISH packets arrive in one read: a binding made by a PUBLISH that
+    follows the CONNACK in the same read holds for the rest of the connection; a PUBLISH with an empty topic that follows the
+    CONNACK of a *new* connection in the same read must not be resolved through the previous connection's table - it fails the
+    connection.  The same streams split into one read per packet are the reference."""
+    from gv import harness_batch, resp_fields
+    def pub(topic, alias, payload):
+        body = bytes([0, len(topic)]) + topic + bytes([3, 0x23, alias >> 8, alias & 255]) + payload
+        return bytes([0x30, len(body)]) + body
+    connack = bytes([0x20, 3, 0, 0, 0])
+    scripts = []
+    for joined in (True, False):
+        # (a) the binding is made in the read of the CONNACK
+        stream1 = [connack, pub(b"a/b", 1, b"x")]
+        sc = ["eng.new v=5 policy=all drain=none pingto=0 resolver=none rmax=2 | ka=0 cid=x63 tam=3", "eng.open t=0 deadline=30000", "eng.svc t=0 cap=4096 prefill=0", "eng.wc t=0"]
+        sc += [f"eng.data t=0 b={hexs(b''.join(stream1))}"] if joined else [f"eng.data t=0 b={hexs(x)}" for x in stream1]
+        sc += [f"eng.data t=1 b={hexs(pub(b'', 1, b'y'))}"]
+        scripts.append((sc, "binding-in-connack-read", joined, [b"a/b", b"a/b"], False))
+        # (b) a stale binding of the previous connection
+        sc = ["eng.new v=5 policy=all drain=none pingto=0 resolver=none rmax=2 | ka=0 cid=x63 tam=3", "eng.open t=0 deadline=30000", "eng.svc t=0 cap=4096 prefill=0", "eng.wc t=0",
+              f"eng.data t=0 b={hexs(connack)}", f"eng.data t=1 b={hexs(pub(b'old/topic', 1, b'x'))}", "eng.close t=2", "eng.open t=3 deadline=30000", "eng.svc t=3 cap=4096 prefill=0", "eng.wc t=3"]
+        stream2 = [connack, pub(b"", 1, b"z")]
+        sc += [f"eng.data t=3 b={hexs(b''.join(stream2))}"] if joined else [f"eng.data t=3 b={hexs(x)}" for x in stream2]
+        scripts.append((sc, "stale-binding", joined, [b"old/topic"], True))
+    reqs, starts = [], []
+    for sc, *_ in scripts:
+        starts.append(len(reqs))
+        reqs.append("session.reset")
+        reqs += sc
+    impl = harness_batch(reqs)
+    model = driver_batch(reqs)
+    ok, mon, bad, mbad = True, True, 0, 0
+    for k, st in enumerate(starts):
+        end = starts[k + 1] if k + 1 < len(starts) else len(reqs)
+        sc, what, joined, topics, must_fail = scripts[k]
+        report.case("|".join(reqs[st + 1:end]))
+        report.traces_validated += 1
+        for i in range(st, end):
+            if canon(impl[i]) != canon(model[i]):
+                ok = False
+                if bad < 4:
+                    report.add_finding(Finding(prop, "corr:" + label, {"clause": "model-vs-impl", "verb": reqs[i].split(" ")[0]},
+                                               "alias with CONNACK scenario: implementation and model disagree", reqs[st + 1:i + 1] + ["# impl:  " + impl[i][:300], "# model: " + model[i][:300]], has_input=False))
+                bad += 1
+                break
+        surfaced, failed = [], False
+        for i in range(st, end):
+            if not reqs[i].startswith("eng.data"):
+                continue
+            f, segs = resp_fields(impl[i])
+            if f.get("res", "").startswith("err"):
+                failed = True
+            for x in segs:
+                if x.startswith("publish"):
+                    surfaced.append(unhex([y for y in x.split(" ") if y.startswith("topic=")][0][6:]))
+        problem = None
+        if surfaced != topics:
+            problem = f"surfaced topics {[t.decode() for t in surfaced]}, the server sent {[t.decode() for t in topics]}"
+        elif must_fail and not failed:
+            problem = "an empty topic with an alias that this connection never bound was accepted"
+        elif not must_fail and failed:
+            problem = "a connection on which every alias was bound before it was used was failed"
+        if problem:
+            mon = False
+            if mbad < 6:
+                report.add_finding(Finding(prop, "mon:" + label, {"clause": "alias-vs-connack-order", "what": what, "joined": joined},
+                                           f"{what} ({'CONNACK and PUBLISH in one read' if joined else 'one read per packet'}): {problem}", reqs[st + 1:end]))
+            mbad += 1
+    report.count(label + ".scenarios", len(scripts))
+    report.obligation("corr:" + label, "correspondence", ok, f"{len(scripts)} scripted histories, every response compared")
+    report.obligation("mon:" + label, "monitor", mon, "alias bindings made behind the CONNACK in its read hold; bindings of the previous connection do not")
+    return ok and mon
+
+
+def announced_availability_family(report, prop="C16", label="announced-availability-on-the-wire"):
+    """what the CONNACK says about wildcard and shared subscriptions, against what is then sent: every combination of the two
+    announcements x SUBSCRIBE with a plain / wildcard / shared / shared wildcard filter.  A SUBSCRIBE the server cannot take
+    is failed locally and never written; one it can take is written and not refused."""
+    from gv import harness_batch, resp_fields, unhex
+    from walk import split_packets
+    filters = {"plain": b"a/b", "wild": b"a/+", "shared": b"$share/g/a", "sharedwild": b"$share/g/#"}
+    scripts = []
+    for wsa in (None, 0, 1):
+        for ssa in (None, 0, 1):
+            props = b""
+            if wsa is not None:
+                props += bytes([0x28, wsa])
+            if ssa is not None:
+                props += bytes([0x2A, ssa])
+            connack = bytes([0x20, 3 + len(props), 0, 0, len(props)]) + props
+            for fk, fl in filters.items():
+                sc = ["eng.new v=5 policy=all drain=none pingto=0 resolver=none rmax=2 | ka=0 cid=x63", "eng.open t=0 deadline=30000", "eng.svc t=0 cap=4096 prefill=0", "eng.wc t=0",
+                      f"eng.data t=0 b={hexs(connack)}", f"eng.sub t=1 | subscribe pid=0 sub={hexs(fl)}:1:0:0:0", "eng.svc t=1 cap=4096 prefill=0", "eng.snap"]
+                allowed = (wsa != 0 or fk in ("plain", "shared")) and (ssa != 0 or fk in ("plain", "wild"))
+                scripts.append((sc, wsa, ssa, fk, allowed))
+    reqs, starts = [], []
+    for sc, *_ in scripts:
+        starts.append(len(reqs))
+        reqs.append("session.reset")
+        reqs += sc
+    impl = harness_batch(reqs)
+    model = driver_batch(reqs)
+    ok, mon, bad, mbad = True, True, 0, 0
+    for k, st in enumerate(starts):
+        end = starts[k + 1] if k + 1 < len(starts) else len(reqs)
+        sc, wsa, ssa, fk, allowed = scripts[k]
+        report.case("|".join(reqs[st + 1:end]))
+        report.traces_validated += 1
+        for i in range(st, end):
+            if canon(impl[i]) != canon(model[i]):
+                ok = False
+                if bad < 4:
+                    report.add_finding(Finding(prop, "corr:" + label, {"clause": "model-vs-impl", "verb": reqs[i].split(" ")[0]},
+                                               "announced-availability scenario: implementation and model disagree", reqs[st + 1:i + 1] + ["# impl:  " + impl[i][:300], "# model: " + model[i][:300]], has_input=False))
+                bad += 1
+                break
+        svc, _ = resp_fields(impl[st + 7])
+        sent = svc.get("bytes", "x") != "x" and any(fb >> 4 == 8 for fb, _ in split_packets(unhex(svc["bytes"]))[0])
+        failed = "PacketValidation" in svc.get("comps", "") or "Validation" in svc.get("comps", "")
+        problem = None
+        if sent and not allowed:
+            problem = "was written although the server announced it cannot take it"
+        elif allowed and (not sent or svc.get("comps", "")):
+            problem = f"is within everything the server announced, yet it was {'not written' if not sent else 'written and'} {'failed: ' + svc.get('comps', '') if svc.get('comps', '') else ''}"
+        elif not allowed and not failed:
+            problem = f"was not failed with a validation error (result: {svc.get('comps', '') or 'none'})"
+        if problem:
+            mon = False
+            if mbad < 6:
+                report.add_finding(Finding(prop, "mon:" + label, {"clause": "availability-vs-wire", "filter": fk, "allowed": allowed},
+                                           f"CONNACK wildcard available = {wsa}, shared available = {ssa} (None = absent = available): the SUBSCRIBE with a {fk} filter {problem}",
+                                           reqs[st + 1:end] + ["# impl: " + impl[st + 7][:200]]))
+            mbad += 1
+    report.count(label + ".scenarios", len(scripts))
+    report.obligation("corr:" + label, "correspondence", ok, f"{len(scripts)} scripted connections, every response compared")
+    report.obligation("mon:" + label, "monitor", mon, "a SUBSCRIBE is written exactly when its filter is within what the CONNACK announced; otherwise it fails with a validation error")
+    return ok and mon
